@@ -42,3 +42,9 @@ package rest
 //@   invariant#1 0 <= $i && $i <= len(d.logs) && n_dfl == old(n_dfl) + $i && numErrs == n_dfl_fail - old(n_dfl_fail) && 0 <= numErrs && numErrs <= $i
 //@   invariant#1 forall j int :: 0 <= j && j < len(d.logs) ==> d.logs[j].Verifier != nil
 //@   decreases#1 len(d.logs) - $i
+
+// The distributor works on exactly the configuration it was constructed with.
+//@ func NewDistributor
+//@   returns (d, err)
+//@   modifies heap
+//@   ensures[C15.new,C12.new] err == nil && d != nil && d.baseURL == baseURL && d.client == client && d.logs == logs && d.witSigV == witSigV && d.witness == wit
